@@ -493,10 +493,12 @@ func (encryptor *QueryDataEncryptor) getInsertPlaceholders(ctx context.Context, 
 	} else if cols := schema.Columns(); len(cols) > 0 {
 		columns = cols
 	}
-	// If there is no column schema available, we can't encrypt values.
+	// If there is no column schema available, we can't encrypt the VALUES (the rows are skipped below: no value has
+	// an index below len(columns)). An ON DUPLICATE KEY UPDATE clause names its columns itself: returning here left
+	// its parameters in the clear (`INSERT INTO t VALUES (..) ON DUPLICATE KEY UPDATE col = ?` with a config
+	// without `columns`).
 	if len(columns) == 0 {
 		logger.WithField("table", tableName).Debugln("No column information")
-		return nil, nil
 	}
 
 	placeholders := make(map[int]string, len(insert.Columns))
